@@ -8,7 +8,7 @@
 * binomial tails as exact rationals.  Python floats are dyadic rationals, so for
   q = a / 2^m the tail  sum_k C(n,k) q^k (1-q)^(n-k)  times 2^(m n) is an integer; the
   comparisons ``conf >= c`` are decided in integer arithmetic.  For sizes where those
-  integers would have more than ``EXACT_BITS`` bits the same positive-term sum is
+  integers would cost more than ``EXACT_WORK`` (bits x terms) the same positive-term sum is
   evaluated in mp at ``BIG_DPS`` digits (every term positive: relative error
   < terms * 10^(1-BIG_DPS)) and a comparison closer than 10^-60 relative is *refused*
   (returned as None), never guessed.
@@ -17,10 +17,10 @@ from fractions import Fraction
 
 import mpmath as mp
 
-DPS = 30
-EXACT_BITS = 3_000_000
+DPS = 25
+EXACT_WORK = 40_000_000      # bits of the big integers x number of terms
 BIG_DPS = 100
-MAX_TERMS = 60_000
+MAX_TERMS = 25_000
 
 
 # ---------------------------------------------------------------- normal / chi-square
@@ -61,7 +61,7 @@ def _breaks(nu, extra=()):
     sd = 1 / mp.sqrt(2 * nu)
     mode = mp.sqrt((nu - 1) / nu) if nu > 1 else mp.mpf(0)
     pts = {mp.mpf(0)}
-    for k in (-12, -6, -3, -1, 0, 1, 3, 6, 12, 24):
+    for k in (-12, -4, 0, 4, 12):
         v = mode + k * sd
         if v > 0:
             pts.add(v)
@@ -85,7 +85,7 @@ def nctcdf(t, nu, delta, error=False):
     if t != 0:
         u0 = delta / t
         w = 1 / abs(t)
-        extra = [u0 + k * w for k in (-9, -4, -1, 0, 1, 4, 9)]
+        extra = [u0 + k * w for k in (-9, 0, 9)]
     pts = _breaks(nu, extra)
 
     def f(u):
@@ -96,12 +96,62 @@ def nctcdf(t, nu, delta, error=False):
     return (val, err) if error else val
 
 
+def nctcdf_slope(t, nu, delta):
+    """(F, dF/dt, quadrature error estimate): the CDF and its derivative
+    dF/dt = int u phi(t u - delta) f_U(u) du  from ONE quadrature of a complex integrand
+    (real part = CDF integrand, imaginary part = density integrand)."""
+    t, delta = mp.mpf(t), mp.mpf(delta)
+    extra = []
+    if t != 0:
+        u0 = delta / t
+        w = 1 / abs(t)
+        extra = [u0 + k * w for k in (-9, 0, 9)]
+    pts = _breaks(nu, extra)
+
+    def f(u):
+        if u <= 0:
+            return mp.mpc(0)
+        x = t * u - delta
+        return mp.mpc(mp.ncdf(x), u * mp.npdf(x)) * mp.exp(_logfU(u, nu))
+    val, err = mp.quad(f, pts, error=True)
+    return val.real, val.imag, err
+
+
+def chi2logpdf(x, nu):
+    h = mp.mpf(nu) / 2
+    x = mp.mpf(x)
+    return (h - 1) * mp.log(x) - x / 2 - h * mp.log(2) - mp.loggamma(h)
+
+
+def _newton_bracketed(g, dg, lo, hi, x0):
+    """Root of the increasing function g in [lo, hi]: Newton steps, bisection whenever
+    a step leaves the bracket; stops when the step is below 10^-(dps-4) relative."""
+    eps = mp.mpf(10) ** (-(mp.mp.dps - 4))
+    x = x0 if lo < x0 < hi else (lo + hi) / 2
+    for _ in range(400):
+        gx = g(x)
+        if gx == 0:
+            return x
+        if gx > 0:
+            hi = x
+        else:
+            lo = x
+        d = dg(x)
+        xn = x - gx / d if d > 0 else None
+        if xn is None or not (lo < xn < hi):
+            xn = (lo + hi) / 2
+        if abs(xn - x) <= eps * abs(xn) or hi - lo <= eps * abs(hi):
+            return xn
+        x = xn
+    raise RuntimeError("root finder did not converge")
+
+
 def chi2ppf(q, nu):
-    """Chi-square quantile (bisection-safeguarded secant on the mp CDF)."""
+    """Chi-square quantile (bracketed Newton on the mp CDF, Wilson-Hilferty start)."""
     q = mp.mpf(q)
     nu_ = mp.mpf(nu)
     z = nppf(q)
-    x0 = nu_ * (1 - 2 / (9 * nu_) + z * mp.sqrt(2 / (9 * nu_))) ** 3   # Wilson-Hilferty
+    x0 = nu_ * (1 - 2 / (9 * nu_) + z * mp.sqrt(2 / (9 * nu_))) ** 3
     if not x0 > 0:
         x0 = nu_ * mp.mpf(10) ** -3
     lo, hi = x0 / 2, x0 * 2
@@ -109,22 +159,20 @@ def chi2ppf(q, nu):
         lo /= 4
     while chi2cdf(hi, nu) < q:
         hi *= 4
-    return mp.findroot(lambda x: chi2cdf(x, nu) - q, (lo, hi), solver="anderson",
-                       tol=mp.mpf(10) ** (-2 * mp.mp.dps + 8), maxsteps=200)
+    return _newton_bracketed(lambda x: chi2cdf(x, nu) - q,
+                             lambda x: mp.exp(chi2logpdf(x, nu)), lo, hi, x0)
 
 
 def getr(n, p):
-    """r with  Phi(1/sqrt(n) + r) - Phi(1/sqrt(n) - r) = p  (monotone in r)."""
+    """r with  Phi(1/sqrt(n) + r) - Phi(1/sqrt(n) - r) = p  (increasing in r)."""
     sn = 1 / mp.sqrt(mp.mpf(n))
     p = mp.mpf(p)
-
-    def g(r):
-        return mp.ncdf(sn + r) - mp.ncdf(sn - r) - p
     lo, hi = mp.mpf(0), mp.mpf(1)
-    while g(hi) < 0:
+    while mp.ncdf(sn + hi) - mp.ncdf(sn - hi) < p:
         hi *= 2
-    return mp.findroot(g, (lo, hi), solver="anderson",
-                       tol=mp.mpf(10) ** (-2 * mp.mp.dps + 8), maxsteps=300)
+    return _newton_bracketed(lambda r: mp.ncdf(sn + r) - mp.ncdf(sn - r) - p,
+                             lambda r: mp.npdf(sn + r) + mp.npdf(sn - r), lo, hi,
+                             nppf((1 + p) / 2))
 
 
 def coverage2(n, r):
@@ -172,7 +220,7 @@ def conf_cmp(r, n, p, c):
     nterms = r if lower else n - r + 1
     if nterms > MAX_TERMS:
         return None
-    if m * n <= EXACT_BITS:
+    if m * n * nterms <= EXACT_WORK:
         from math import comb
         if lower:             # cdf(r-1) * 2^(mn) = b^(n-r+1) * sum_{k<r} C a^k b^(r-1-k)
             s = 0
@@ -272,6 +320,11 @@ def selfcheck():
         a = nctcdf(1.7, 3, 0.8)
         b = 1 - nctcdf(-1.7, 3, -0.8)
         ok &= abs(a - b) < mp.mpf(10) ** -18
+        F, dF, _ = nctcdf_slope(1.7, 3, 0.8)
+        h = mp.mpf(10) ** -8
+        ok &= abs(F - a) < mp.mpf(10) ** -20
+        ok &= abs(dF - (nctcdf(1.7 + h, 3, 0.8) - nctcdf(1.7 - h, 3, 0.8)) / (2 * h)
+                  ) < mp.mpf(10) ** -12
         # published one-sided tolerance factor, n=21, P99/90: k = 3.028 (tables)
         z = nppf(0.99)
         F = nctcdf(mp.mpf("3.028") * mp.sqrt(21), 20, z * mp.sqrt(21))
@@ -282,13 +335,13 @@ def selfcheck():
     ok &= conf_cmp(4, 700, 0.99, 0.90) == 1 and conf_cmp(5, 700, 0.99, 0.90) == -1
     ok &= conf_cmp(1, 230, 0.99, 0.90) == 1 and conf_cmp(1, 229, 0.99, 0.90) == -1
     big = conf_cmp(4, 700, 0.99, 0.90), conf_cmp(5, 700, 0.99, 0.90)
-    global EXACT_BITS
-    save, EXACT_BITS = EXACT_BITS, 0
+    global EXACT_WORK
+    save, EXACT_WORK = EXACT_WORK, 0
     try:
         ok &= (conf_cmp(4, 700, 0.99, 0.90), conf_cmp(5, 700, 0.99, 0.90)) == big
         ok &= conf_cmp(2, 3, 0.5, 0.5) is None
     finally:
-        EXACT_BITS = save
+        EXACT_WORK = save
     v = conf_value(4, 700, 0.99)
     ok &= abs(v - mp.mpf("0.91927834")) < 1e-7
     ok &= abs(conf_value(3, 5, 0.25) - mp.mpf(binom_sf_fraction(3, 5, Fraction(3, 4)).numerator)
